@@ -301,10 +301,34 @@ def check_d(ck, repo):
     return n
 
 
+def check_d2(ck, repo):
+    """the per-cluster weight vector whose zeros denote empty clusters has one
+    entry per cluster id (explicit length n_clusters)"""
+    cd = repo.func(MOD, "_centers_dense")
+    wh = [c for c in own_nodes_incl_lambda(cd.node) if isinstance(c, ast.Call) and src_of(c.func) == "numpy.where" and c.args and isinstance(c.args[0], ast.Compare)]
+    for c in wh:
+        left = c.args[0].left
+        if not isinstance(left, ast.Name):
+            continue
+        defs = [s for s in own_nodes(cd.node) if isinstance(s, ast.Assign) and any(isinstance(t, ast.Name) and t.id == left.id for t in s.targets)]
+        for d in defs:
+            v = d.value
+            ok = False
+            calls = [x for x in ast.walk(v) if isinstance(x, ast.Call)]
+            for x in calls:
+                fn = src_of(x.func).split(".")[-1]
+                if fn in ("zeros", "empty", "ones", "full") and x.args and "n_clusters" in src_of(x.args[0]):
+                    ok = True
+                if fn == "bincount" and kwarg(x, "minlength") is not None and src_of(kwarg(x, "minlength")) == "n_clusters":
+                    ok = True
+            ck.verdict(ok, "C06.d", cd, d, f"{left.id} has one entry per cluster id (length n_clusters)", f"{left.id} is not allocated with length n_clusters: clusters with the highest ids that received no point are missing from it, are never detected as empty, and keep an all-zero centre outside the data range")
+
+
 def run(ck):
     repo = ck.repo
     for k, v in RULES.items():
         ck.rule(k, v)
+    check_d2(ck, repo)
     check_a(ck, repo)
     check_b(ck, repo)
     check_c(ck, repo)
@@ -312,13 +336,14 @@ def run(ck):
     ck.require_count("C06.a", 9, "three dispatchers x (set, refuse, delegation)")
     ck.require_count("C06.b", 4, "pairwise_distances_argmin_min x2, manhattan_distances x2 (+ euclidean under L2 guards)")
     ck.require_count("C06.c", 6, "median axis/selection/store, final E-step centres/X/guard")
-    ck.require_count("C06.d", 1, "_centers_dense median loop")
+    ck.require_count("C06.d", 2, "_centers_dense median loop")
 
 
 _F = "mlinsights/mlmodel/kmeans_l1.py"
 _G = "mlinsights/mlmodel/_kmeans_022.py"
 WITNESSES = [
     {"name": "empty-cluster-unguarded", "file": _F, "rule": "C06.d", "old": "            if sub.shape[0] == 0:\n                # empty cluster: keeps the center it was relocated to\n                continue\n", "new": ""},
+    {"name": "weights-bincount-no-minlength", "file": _F, "rule": "C06.d", "old": "    weight_in_cluster = numpy.zeros((n_clusters,), dtype=dtype)\n", "new": "    weight_in_cluster = numpy.bincount(labels, weights=sample_weight).astype(dtype)\n"},
     {"name": "l2-predict-not-delegated", "file": _F, "rule": "C06.a", "old": '        if self.norm == "L2":\n            return KMeans.predict(self, X)\n', "new": '        if self.norm == "L2":\n            return self._predict_l1(X, sample_weight=sample_weight)\n'},
     {"name": "l2-fit-drops-weights", "file": _F, "rule": "C06.a", "old": "KMeans.fit(self, X=X, y=y, sample_weight=sample_weight)", "new": "KMeans.fit(self, X=X, y=y)"},
     {"name": "transform-dispatch-other-literal", "file": _F, "rule": "C06.a", "old": '        if self.norm == "L1":\n            return self._transform_l1(X)\n', "new": '        if self.norm == "l1":\n            return self._transform_l1(X)\n'},
